@@ -72,6 +72,10 @@ def run(ctx):
     codes.append(("Polar(8,16,polar_i)", lambda: E.PolarCodeEncoder(8, 16, polar_i=True), [("SuccessiveCancellationDecoder", lambda e: D.SuccessiveCancellationDecoder(e), "soft", False)]))
     codes.append(("Polar(8,16,frozen_ones)", lambda: E.PolarCodeEncoder(8, 16, frozen_zeros=False), [("SuccessiveCancellationDecoder", lambda e: D.SuccessiveCancellationDecoder(e), "soft", False),
                                                                                                      ("BeliefPropagationPolarDecoder", lambda e: D.BeliefPropagationPolarDecoder(e, bp_iters=20), "soft", False)]))
+    # systematic codes whose information set is a user list that is not ascending: decoders that work from the published matrices
+    codes.append(("Hamming(3,info=[5,0,3,2])", lambda: E.HammingCodeEncoder(mu=3, information_set=[5, 0, 3, 2]), [("SyndromeLookupDecoder", lambda e: D.SyndromeLookupDecoder(e), "hard", True), ("BruteForceMLDecoder", lambda e: D.BruteForceMLDecoder(e), "hard", False)]))
+    codes.append(("Systematic(6,3,info=[4,1,2])", lambda: E.SystematicLinearBlockCodeEncoder(parity_submatrix=torch.tensor([[1, 1, 0], [0, 1, 1], [1, 0, 1]]).float(), information_set=[4, 1, 2]),
+                  [("SyndromeLookupDecoder", lambda e: D.SyndromeLookupDecoder(e), "hard", True)]))
     codes.append(("Hamming(4)", lambda: E.HammingCodeEncoder(mu=4), [("SyndromeLookupDecoder", lambda e: D.SyndromeLookupDecoder(e), "hard", True), ("BruteForceMLDecoder", lambda e: D.BruteForceMLDecoder(e), "hard", False)]))
     if not quick:
         codes += [("Golay(23,12)", lambda: E.GolayCodeEncoder(), [("SyndromeLookupDecoder", lambda e: D.SyndromeLookupDecoder(e), "hard", True)]),
